@@ -83,8 +83,8 @@ def decPrim : Prim → DProg Val
   | .dstring =>
     readVarI32 >>= fun n =>
     if n < 0 then
-      -- `StringId(-count_or_id)`
-      if n = -(2 ^ 31 : Int) then .panic "attempt to negate with overflow" else
+      -- `StringId(count_or_id.wrapping_neg())`: i32::MIN negates to itself and is never a known id
+      if n = -(2 ^ 31 : Int) then .fail (.invalidStringId n) else
       strGet n.natAbs >>= fun s? =>
       match s? with
       | some s => pure (.str s)
